@@ -97,4 +97,28 @@ theorem unhitItem_is_code (cfg : Cfg) (e : Item) (wexp ts : Nat) :
       else none := by
   simp [unhitItem, slidingUnhitGuard, slidingUnhitCurCase, slidingUnhitPrevCase, slidingUnhitTtl, fixedUnhitGuard, fixedTtl]
 
+/-- the sliding window's `rate` is the regenerated whole-number expression of limiter_sliding.go
+(`e.prevHits*int(resetInSec)/int(expiration) + e.currHits`, `/` truncating toward zero): the weight of a
+configuration that weighs like the code (`Cfg.code`) is no parameter any more. A `float64` in that
+expression makes the translator fail (unsupported call), which breaks this obligation. -/
+theorem rate_is_code (cfg : Cfg) (hc : cfg.code) (e : Item) (ts : Nat) :
+    rate cfg e ts = if cfg.sliding then slidingRate e.prev (slidingReset e.exp ts) cfg.expiration e.curr else e.curr := by
+  unfold rate
+  rw [hc]
+  rfl
+
+/-- `codeWt` is literally the previous-window summand of the regenerated expression -/
+theorem codeWt_is_code (prev : Int) (reset expiration : Nat) :
+    codeWt prev reset expiration = slidingRate prev reset expiration 0 := by
+  simp [codeWt, slidingRate]
+
+/-- which local each response header prints, in both files: `Retry-After` (429 only) and `X-RateLimit-Reset`
+print `resetInSec` (model: `Thread.reset`), `X-RateLimit-Limit` prints `maxRequests` (MaxFunc's value for this
+request, model: `Thread.req.max`), `X-RateLimit-Remaining` prints `remaining` (model: `Thread.remaining`) -/
+theorem headers_are_model_locals :
+    Facts.fixedHeaders = ["fiber.HeaderRetryAfter=resetInSec", "xRateLimitLimit=maxRequests",
+                          "xRateLimitRemaining=remaining", "xRateLimitReset=resetInSec"] ∧
+    Facts.slidingHeaders = Facts.fixedHeaders := by
+  decide
+
 end C13
